@@ -10,13 +10,19 @@ from props import c02, c08
 
 REQUIRED_THEOREMS = ['C19_eval_preserves_equiv', 'C19_sequence_is_pointwise', 'C19_interleave',
                      'C19_switch_history_free', 'C19_result_stable', 'C19_alias_counterexample',
-                     'C19_frame', 'C19_deep_copy_isolated', 'C19_mixed_history', 'C19_shared_cell_counterexample']
+                     'C19_frame', 'C19_deep_copy_isolated', 'C19_mixed_history', 'C19_shared_cell_counterexample',
+                     'C19_sens_columns_follow_configuration', 'C19_reconfigure_history_free',
+                     'C19_count_shortcut_counterexample']
 RULE = ('for every kind of evaluable object (reduced error / mechanistic / population models, individual and '
         'hierarchical likelihoods and posteriors with and without fixed parameters, predictive models) a random '
         'interleaving (with repeats) of all its evaluation calls at several inputs is compared, call by call, with '
         'single evaluations of an untouched twin; returned arrays are re-read at the end (aliasing), inputs are '
         'compared before/after; siblings built from the same user models are evaluated interleaved and the user '
-        'models are mutated afterwards; a forked pints.ParallelEvaluator is compared with the sequential one; '
+        'models are mutated afterwards; evaluations are interleaved with fix_parameters / release / '
+        'enable_sensitivities calls and compared with a twin that went through the re-configurations only (and, '
+        'for a reduced mechanistic model, with the closed form and the Lean switch model); data frames and '
+        'dictionaries handed to a ProblemModellingController (with / without dose and duration columns and keys) '
+        'are compared before / after; a forked pints.ParallelEvaluator is compared with the sequential one; '
         'non-trivial = interleaving of >=2 evaluation kinds with fixed parameters or >=2 objects; distinct = '
         '(object kind, interleaving shape)')
 ASSUMPTIONS = ['process forking / pickling is runtime behaviour: observed, not proved',
@@ -50,6 +56,21 @@ def same(a, b):
     if a.dtype == object or b.dtype == object:
         return bool(np.all(a == b))
     return bool(np.all((a == b) | (np.isnan(a) & np.isnan(b))))
+
+
+def near(a, b):
+    """like `same`, to rounding (two objects in the same configuration may take different but equivalent routes)"""
+    if isinstance(a, tuple) and isinstance(b, tuple) and len(a) == len(b) >= 2 and np.ndim(a[0]) == 0 \
+            and not math.isfinite(float(a[0])):
+        return near(a[0], b[0])
+    if isinstance(a, tuple):
+        return isinstance(b, tuple) and len(a) == len(b) and all(near(x, y) for x, y in zip(a, b))
+    a, b = np.asarray(a), np.asarray(b)
+    if a.shape != b.shape:
+        return False
+    if a.dtype == object or b.dtype == object:
+        return same(a, b)
+    return bool(np.allclose(a, b, rtol=1e-9, atol=1e-12, equal_nan=True))
 
 
 class Zoo(object):
@@ -347,6 +368,469 @@ def interleave_case(ctx, kind, build, ev, xs, ext_inputs, rng):
     del twin
 
 
+class RecToy(toy.ToyModel):
+    """a ToyModel (the user's own class) that logs the full parameter vector of every simulation"""
+    log = []
+
+    def simulate(self, parameters, times):
+        out = super().simulate(parameters, times)
+        RecToy.log.append([float(v) for v in np.asarray(parameters, float)])
+        return out
+
+
+class ToyDosed(toy.ToyModel):
+    """a ToyModel that supports dosing: the amount of every dose event that started before t is added"""
+    _regimen = None
+
+    def supports_dosing(self):
+        return True
+
+    def dosing_regimen(self):
+        return self._regimen
+
+    def set_dosing_regimen(self, dose, start=0, duration=0.01, period=None, num=None):
+        self._regimen = dose
+
+    def simulate(self, parameters, times):
+        res = super().simulate(parameters, times)
+        t = np.asarray(times, float)
+        add = np.zeros(len(t))
+        if self._regimen is not None and hasattr(self._regimen, 'events'):
+            for e in self._regimen.events():
+                add = add + np.where(t >= e.start(), e.level() * e.duration(), 0.0)
+        if isinstance(res, tuple):
+            return res[0] + add, res[1]
+        return res + add
+
+
+def names_of(o):
+    return list(o.get_parameter_names()) if hasattr(o, 'get_parameter_names') else list(o.parameters())
+
+
+def gen_request(rng, full, fixed, groups=None):
+    """a fix_parameters request (list of [name, value-or-None]) on an object whose names `fixed` are fixed now;
+    at least one name stays free; requests that exchange fixed for free names of one sub-model (same number of
+    free parameters before and after, another set) are frequent"""
+    groups = [g for g in (groups or [full]) if len(g) >= 2]
+    for _ in range(6):
+        swappable = [g for g in groups if any(n in fixed for n in g) and any(n not in fixed for n in g)]
+        if swappable and rng.random() < 0.55:
+            g = swappable[int(rng.integers(len(swappable)))]
+            fx, free = [n for n in g if n in fixed], [n for n in g if n not in fixed]
+            k = int(rng.integers(1, min(len(fx), len(free), 2) + 1))
+            d = [[fx[int(j)], None] for j in rng.choice(len(fx), size=k, replace=False)] + \
+                [[free[int(j)], float(rng.uniform(0.5, 1.5))] for j in rng.choice(len(free), size=k, replace=False)]
+            d = [d[int(j)] for j in rng.permutation(len(d))]
+        else:
+            k = int(rng.integers(1, min(3, len(full)) + 1))
+            d = [[full[int(j)], None if rng.random() < 0.3 else float(rng.uniform(0.5, 1.5))]
+                 for j in rng.choice(len(full), size=k, replace=False)]
+        after = (set(fixed) | set(n for n, v in d if v is not None)) - set(n for n, v in d if v is None)
+        if len(after) < len(full):
+            return d, after
+    return None, set(fixed)
+
+
+class ReconfZoo(object):
+    """objects that can be re-configured (fix_parameters) between evaluations: (kind, build, evaluations,
+    recorder-or-None, names of the mechanistic parameters)"""
+
+    def __init__(self, chi, rng):
+        self.chi = chi
+        self.rng = rng
+
+    def loglik(self):
+        chi, rng = self.chi, self.rng
+        n_out, n_par = int(rng.integers(1, 3)), int(rng.integers(2, 5))
+        seed = int(rng.integers(1000))
+        ems_idx = [int(rng.integers(4)) for _ in range(n_out)]
+        times = [np.sort(rng.choice(np.arange(1, 20) * 0.25, int(rng.integers(1, 4)), replace=False)) for _ in range(n_out)]
+        obs = [rng.uniform(0.5, 3.0, len(t)) for t in times]
+
+        def build():
+            return chi.LogLikelihood(RecToy(n_out, n_par, seed), [c08.em_classes(chi)[i]() for i in ems_idx],
+                                     [list(o) for o in obs], [list(t) for t in times])
+        ev = {'call': lambda m, x: m(x), 's1': lambda m, x: m.evaluateS1(x), 'pw': lambda m, x: m.compute_pointwise_ll(x)}
+        return 'LogLikelihood', build, ev, RecToy, ['psi%d' % k for k in range(n_par)]
+
+    def predictive(self):
+        chi, rng = self.chi, self.rng
+        seed, idx = int(rng.integers(1000)), int(rng.integers(4))
+        times = rng.uniform(0, 5, 3)
+
+        def build():
+            return chi.PredictiveModel(toy.ToyModel(1, 3, seed), [c08.em_classes(chi)[idx]()])
+        ev = {'sample': lambda m, x: m.sample(x, times, n_samples=2, seed=9, return_df=False),
+              'sample_df': lambda m, x: m.sample(x, times, n_samples=2, seed=9)}
+        return 'PredictiveModel', build, ev, None, None
+
+    def reduced_error(self):
+        chi, rng = self.chi, self.rng
+        n = int(rng.integers(1, 4))
+        yb, ob, S = rng.uniform(0.5, 2, n), rng.uniform(0.5, 2, n), rng.normal(size=(n, 2))
+
+        def build():
+            return chi.ReducedErrorModel(chi.ConstantAndMultiplicativeGaussianErrorModel())
+        ev = {'ll': lambda m, x: m.compute_log_likelihood(x, yb, ob),
+              'pw': lambda m, x: m.compute_pointwise_ll(x, yb, ob),
+              's1': lambda m, x: m.compute_sensitivities(x, yb, S, ob),
+              'sample': lambda m, x: m.sample(x, yb, n_samples=2, seed=4)}
+        return 'ReducedErrorModel', build, ev, None, None
+
+    def reduced_pop(self):
+        chi, rng = self.chi, self.rng
+        kind = int(rng.integers(3))
+        n_ids = int(rng.integers(1, 4))
+
+        def build():
+            b = [chi.GaussianModel(n_dim=2, centered=False), chi.LogNormalModel(n_dim=2),
+                 chi.ComposedPopulationModel([chi.PooledModel(n_dim=1), chi.GaussianModel(n_dim=1)])][kind]
+            b.set_n_ids(n_ids)
+            return chi.ReducedPopulationModel(b)
+        psi = rng.uniform(0.5, 1.5, (n_ids, build().n_dim()))
+        ev = {'ll': lambda m, x: m.compute_log_likelihood(x, psi),
+              'indiv': lambda m, x: m.compute_individual_parameters(x, psi),
+              's1': lambda m, x: m.compute_sensitivities(x, psi, reduce=True),
+              'sample': lambda m, x: m.sample(x, n_samples=2, seed=4)}
+        return 'ReducedPopulationModel', build, ev, None, None
+
+    def pop_predictive(self):
+        chi, rng = self.chi, self.rng
+        seed, n_ids = int(rng.integers(1000)), int(rng.integers(2, 4))
+        times = rng.uniform(0, 5, 2)
+
+        def build():
+            pop = chi.ComposedPopulationModel([chi.LogNormalModel(n_dim=2), chi.PooledModel(n_dim=1)])
+            pop.set_n_ids(n_ids)
+            return chi.PopulationPredictiveModel(
+                chi.PredictiveModel(toy.ToyModel(1, 2, seed), [chi.GaussianErrorModel()]), pop)
+        ev = {'sample': lambda m, x: m.sample(x, times, n_samples=n_ids, seed=9, return_df=False),
+              'sample_df': lambda m, x: m.sample(x, times, n_samples=2, seed=5)}
+        return 'PopulationPredictiveModel', build, ev, None, None
+
+    def pkpd_loglik(self):
+        """dosed compartmental model (reference integrator): switching the sensitivities on for another set of
+        parameters rebuilds the simulator"""
+        import refsim
+        refsim.install()
+        from chi.library import ModelLibrary
+        chi, rng = self.chi, self.rng
+        dose = float(rng.uniform(1, 5))
+        times = list(np.sort(rng.choice(np.arange(1, 12) * 0.5, 2, replace=False)))
+        obs = list(rng.uniform(0.2, 2.0, 2))
+
+        def build():
+            m = ModelLibrary().one_compartment_pk_model()
+            m.set_administration('central', direct=True)
+            m.set_dosing_regimen(dose=dose, start=0.25, duration=0.5)
+            return chi.LogLikelihood(m, chi.GaussianErrorModel(), obs, times)
+        ev = {'call': lambda m, x: m(x), 's1': lambda m, x: m.evaluateS1(x)}
+        return 'LogLikelihood/dosed-PKPDModel', build, ev, None, names_of(build())[:-1]
+
+
+def reconfigure_case(ctx, kind, build, ev, rec, mech_names, rng, n_steps=None):
+    """evaluations interleaved with fix_parameters calls on ONE object; every evaluation is compared with the
+    same evaluation of a twin that went through the fix_parameters calls only (never evaluated before)"""
+    tag = 'C19.reconfigure/' + kind.split('/')[0]
+    obj = build()
+    full = names_of(obj)
+    labels = sorted(ev)
+    vals = [{n: float(rng.uniform(0.5, 1.5)) for n in full} for _ in range(3)]
+    n_steps = int(rng.integers(8, 17)) if n_steps is None else n_steps
+    fixed, fixes, prog, seen, lean_prog, held = set(), [], [], [], [], []
+    inp = {'object': kind, 'names': full, 'program': prog, 'values_by_name': vals}
+    groups = None if mech_names is None else [[n for n in full if n in mech_names], [n for n in full if n not in mech_names]]
+    for step in range(n_steps):
+        if (step == 0 and rng.random() < 0.8) or (step > 0 and rng.random() < 0.4):
+            d, after = gen_request(rng, full, fixed, groups)
+            if d is None:
+                continue
+            arg = {n: v for n, v in d}
+            arg_before = dict(arg)
+            obj.fix_parameters(arg)
+            ctx.spec('C19.input_not_mutated/' + kind.split('/')[0], arg == arg_before, dict(inp, at=len(prog)))
+            fixed = after
+            fixes.append(d)
+            prog.append(['fix', d])
+            lean_prog.append(['fix', d])
+            continue
+        lab, j = labels[int(rng.integers(len(labels)))], int(rng.integers(len(vals)))
+        if 's1' in labels and rng.random() < 0.4:
+            lab = 's1'      # (the evaluation kind that leaves a switch behind)
+        prog.append(['eval', lab, j])
+        at = dict(inp, at=len(prog) - 1)
+        now = names_of(obj)
+        twin = build()
+        for d in fixes:
+            twin.fix_parameters({n: v for n, v in d})
+        if now != names_of(twin) or now != [n for n in full if n not in fixed]:
+            ctx.spec(tag, False, at, {'names': now, 'names_of_twin': names_of(twin), 'fixed': sorted(fixed)})
+            return
+        x = np.array([vals[j][n] for n in now])
+        res = []
+        for o in (obj, twin):
+            if rec is not None:
+                rec.log = []
+            try:
+                with np.errstate(all='ignore'):
+                    out = ev[lab](o, x.copy())
+                res.append((out, snap(out)))
+            except Exception as e:  # noqa
+                res.append((None, 'raises ' + type(e).__name__))
+            if o is obj and rec is not None and mech_names is not None:
+                seen.append(rec.log[-1] if rec.log else None)
+                lean_prog.append(['eval', lab, [vals[j][n] for n in now if n in mech_names]])
+        (out, got), (_, want) = res
+        if isinstance(got, str) or isinstance(want, str):
+            ctx.spec(tag, isinstance(got, str) and got == want, at, {'evaluated_before': got, 'never_evaluated_twin': want})
+        else:
+            ctx.spec(tag, near(got, want), at, {'evaluated_before': got, 'never_evaluated_twin': want})
+            held.append((lab, j, out, got))
+    n_ev = len([p for p in prog if p[0] == 'eval'])
+    shape = ''.join('F' if p[0] == 'fix' else {'call': 'c', 's1': 's', 'pw': 'p'}.get(p[1], 'e') for p in prog)
+    ctx.case('reconfigure/%s' % kind, nontrivial='%s/%s' % (kind, shape) if (fixes and n_ev >= 2) else False, sample=inp)
+    for lab, j, out, at_return in held:
+        ctx.spec(TAG17 if lab == 'indiv' else 'C19.earlier_result_changed/' + kind.split('/')[0],
+                 same(snap(out), at_return), dict(inp, at=[lab, j]), {'returned': at_return, 'reads_now': snap(out)})
+    if rec is not None and mech_names is not None and seen:
+        mo = ctx.model('C19.reconf', mech_names, lean_prog)
+        ctx.agree('C19.reconf/vector_seen_by_mechanistic_model', seen, [full_v for full_v, _ in mo[0]], inp)
+        ctx.agree('C19.reconf/free_mechanistic_names', [n for n in names_of(obj) if n in mech_names], mo[1], inp)
+
+
+def reduced_mech_reconfigure(ctx, chi, rng):
+    """a user's ReducedMechanisticModel: fix / release, enable_sensitivities and simulate in any order; every
+    simulation is compared with the closed form (values and derivatives with respect to the parameters that
+    are free NOW) and with the Lean model of the switch"""
+    n_out, n_par, seed = int(rng.integers(1, 3)), int(rng.integers(2, 5)), int(rng.integers(1000))
+    m = chi.ReducedMechanisticModel(RecToy(n_out, n_par, seed))
+    ref = toy.ToyModel(n_out, n_par, seed)
+    full = ref.parameters()
+    times = list(rng.uniform(0.2, 4, int(rng.integers(1, 4))))
+    net, sens_on, prog, seen = {}, False, [], []
+    inp = {'object': 'ReducedMechanisticModel(ToyModel(%d, %d, %d))' % (n_out, n_par, seed), 'times': times, 'program': prog}
+    tag = 'C19.reconfigure/ReducedMechanisticModel'
+    n_sim = 0
+    for step in range(int(rng.integers(6, 15))):
+        r = rng.random()
+        if r < 0.3:
+            d, _ = gen_request(rng, full + ['not-a-parameter'], set(net))
+            if d is None:
+                continue
+            m.fix_parameters({n: v for n, v in d})
+            for n, v in d:
+                if n in full:
+                    net.pop(n, None)
+                    if v is not None:
+                        net[n] = v
+            prog.append(['fix', d])
+        elif r < 0.5:
+            sens_on = bool(rng.random() < 0.75)
+            m.enable_sensitivities(sens_on)
+            prog.append(['sens', sens_on])
+        else:
+            free_names = [n for n in full if n not in net]
+            free = [float(v) for v in rng.uniform(0.5, 1.5, len(free_names))]
+            prog.append(['sim', free])
+            at = dict(inp, at=len(prog) - 1)
+            if m.parameters() != free_names or m.has_sensitivities() != sens_on:
+                ctx.spec(tag, False, at, {'names': m.parameters(), 'expected': free_names,
+                                          'has_sensitivities': m.has_sensitivities(), 'switched': sens_on})
+                return
+            RecToy.log = []
+            x = np.array(free)
+            try:
+                out = m.simulate(x, times)
+            except Exception as e:  # noqa
+                ctx.spec(tag, False, at, {'raised': repr(e)[:200]})
+                return
+            n_sim += 1
+            it = iter(free)
+            fv = [net[n] if n in net else next(it) for n in full]
+            # the parameter every returned sensitivity column belongs to, read off the returned array itself
+            cols = None
+            if isinstance(out, tuple) and len(out) == 2 and np.ndim(out[1]) == 3 and \
+                    np.shape(out[1])[:2] == (len(times), n_out):
+                cols = []
+                for c in range(np.shape(out[1])[2]):
+                    cand = [n for k, n in enumerate(full) if np.allclose(
+                        out[1][:, :, c], [[ref.dvalue(fv, o, t, k) for o in range(n_out)] for t in times],
+                        rtol=1e-9, atol=1e-12)]
+                    cols.append(cand[0] if len(cand) == 1 else '?')
+            seen.append([RecToy.log[-1] if RecToy.log else None, cols])
+            val = np.array([[ref.value(fv, o, t) for t in times] for o in range(n_out)])
+            ok = isinstance(out, tuple) == sens_on
+            detail = {'returned': snap(out), 'closed_form_values': val, 'free': free_names}
+            if ok and sens_on:
+                ds = np.array([[[ref.dvalue(fv, o, t, full.index(n)) for n in free_names] for o in range(n_out)]
+                               for t in times]).reshape(len(times), n_out, len(free_names))
+                detail['closed_form_sensitivities'] = ds
+                ok = np.shape(out[0]) == val.shape and np.allclose(out[0], val, rtol=1e-10, atol=1e-12) and \
+                    np.shape(out[1]) == ds.shape and np.allclose(out[1], ds, rtol=1e-10, atol=1e-12)
+            elif ok:
+                ok = np.shape(out) == val.shape and np.allclose(out, val, rtol=1e-10, atol=1e-12)
+            ctx.spec(tag, bool(ok), at, detail)
+            ctx.spec('C19.input_not_mutated/ReducedMechanisticModel', same(x, np.array(free)), at)
+    ctx.case('reconfigure/ReducedMechanisticModel', nontrivial='rmm/%s' % ''.join(p[0][1] for p in prog)
+             if n_sim >= 2 and net else False, sample=inp)
+    if seen:
+        mo = ctx.model('C19.reconf', full, prog)
+        ctx.agree('C19.reconf/vector_seen_by_mechanistic_model', [v for v, _ in seen], [v for v, _ in mo[0]], inp)
+        ctx.agree('C19.reconf/parameters_of_returned_sensitivity_columns', [c for _, c in seen], [c for _, c in mo[0]], inp)
+        ctx.agree('C19.reconf/free_mechanistic_names', m.parameters(), mo[1], inp)
+
+
+def frame_same(a, b):
+    return list(a.columns) == list(b.columns) and a.index.equals(b.index) and \
+        [str(t) for t in a.dtypes] == [str(t) for t in b.dtypes] and bool(a.equals(b))
+
+
+def controller_inputs(ctx, chi, rng):
+    """whatever is handed to a ProblemModellingController — the data frame (with / without dose and duration
+    columns, default and other column names, dose / duration keys given or None), the name maps, the
+    dictionary of fix_parameters — reads the same afterwards, after every later call and evaluation; and a
+    second controller fed the SAME frame afterwards evaluates like one fed a pristine copy"""
+    import pandas as pd
+    model_kind = ['dosed-toy', 'dosed-toy', 'undosed-toy', 'pk'][int(rng.integers(4))]
+    seed = int(rng.integers(1000))
+    if model_kind == 'pk':
+        import refsim
+        refsim.install()
+        from chi.library import ModelLibrary
+
+        def mech():
+            m = ModelLibrary().one_compartment_pk_model()
+            m.set_administration('central', direct=True)
+            return m
+        output = 'central.drug_concentration'
+    else:
+        def mech():
+            return (ToyDosed if model_kind == 'dosed-toy' else toy.ToyModel)(1, 2, seed)
+        output = 'out0'
+    custom = rng.random() < 0.4
+    K = {'id_key': 'Subject' if custom else 'ID', 'time_key': 't' if custom else 'Time',
+         'obs_key': 'What' if custom else 'Observable', 'value_key': 'Val' if custom else 'Value'}
+    dose_col = ('Amount' if custom else 'Dose') if rng.random() < 0.8 else None
+    dur_col = ('Length' if custom else 'Duration') if (dose_col and rng.random() < 0.5) else None
+    dose_key = dose_col if (dose_col and rng.random() < 0.9) else None
+    dur_key = dur_col if (dose_key and dur_col and rng.random() < 0.7) else None
+    obs_name = output if rng.random() < 0.3 else 'y'
+    ids = [1, 2, 3][:int(rng.integers(1, 4))] if rng.random() < 0.5 else ['a', 'b', 'c'][:int(rng.integers(1, 4))]
+    rows = []
+    for i in ids:
+        for t in np.sort(rng.choice(np.arange(1, 12) * 0.5, int(rng.integers(1, 4)), replace=False)):
+            rows.append({K['id_key']: i, K['time_key']: float(t), K['obs_key']: obs_name,
+                         K['value_key']: float(rng.uniform(0.2, 2))})
+        if dose_col and rng.random() < 0.8:
+            for t in rng.choice([0.0, 1.0, 2.0], size=int(rng.integers(1, 3)), replace=False):
+                r = {K['id_key']: i, K['time_key']: float(t), K['obs_key']: np.nan, K['value_key']: np.nan,
+                     dose_col: float(rng.uniform(1, 5))}
+                if dur_col:
+                    r[dur_col] = float(rng.choice([0.01, 0.5])) if rng.random() < 0.7 else np.nan
+                rows.append(r)
+    pop_stage = model_kind != 'pk' and rng.random() < 0.5
+    cov_obs = None
+    if pop_stage and rng.random() < 0.6:
+        cov_obs = 'Age' if rng.random() < 0.5 else 'age in years'
+        for i in ids:
+            rows.append({K['id_key']: i, K['time_key']: np.nan if rng.random() < 0.5 else 0.0, K['obs_key']: cov_obs,
+                         K['value_key']: float(rng.uniform(20, 60))})
+    if rng.random() < 0.5:
+        rows = [rows[int(j)] for j in rng.permutation(len(rows))]
+    cols = list(K.values()) + ([dose_col] if dose_col else []) + ([dur_col] if dur_col else [])
+    if rng.random() < 0.3:
+        cols.append('Comment')
+        for r in rows:
+            r['Comment'] = 'n/a'
+    if rng.random() < 0.3:
+        cols = [cols[int(j)] for j in rng.permutation(len(cols))]
+    df = pd.DataFrame(rows, columns=cols)
+    if rng.random() < 0.3:
+        df.index = rng.integers(0, 4, len(df))      # repeated row labels
+    pristine = df.copy(deep=True)
+    ood = {output: obs_name}
+    ood_before = dict(ood)
+    kw = dict(K) if custom or rng.random() < 0.3 else {}
+    if custom or dose_key != 'Dose' or rng.random() < 0.3:
+        kw['dose_key'] = dose_key
+    if custom or dur_key != 'Duration' or rng.random() < 0.3:
+        kw['dose_duration_key'] = dur_key
+    inp = {'object': 'ProblemModellingController(%s)' % model_kind, 'frame': df.to_dict('list'), 'index': list(df.index),
+           'set_data': dict(kw, output_observable_dict=ood_before), 'population_stage': pop_stage}
+    ctx.case('controller-inputs/%s' % model_kind,
+             nontrivial='ctrl-in/%s/%s/%s/%s' % (model_kind, dose_col, dur_col, sorted(kw.items(), key=str)), sample=inp)
+    tag = 'C19.input_not_mutated/ProblemModellingController'
+
+    def check(stage):
+        ctx.spec(tag, frame_same(df, pristine) and ood == ood_before, dict(inp, after=stage),
+                 {'columns_now': list(df.columns), 'columns_before': list(pristine.columns)})
+
+    def values(c, x):
+        posts = c.get_log_posterior()
+        posts = posts if isinstance(posts, list) else [posts]
+        if model_kind == 'pk':
+            posts = posts[:1]
+        with np.errstate(all='ignore'):
+            return [float(p(x)) for p in posts]
+
+    def prior(c):
+        n = c.get_n_parameters()
+        c.set_log_prior(pints.ComposedLogPrior(*[pints.UniformLogPrior(0, 100) for _ in range(n)]))
+        return n
+    c = chi.ProblemModellingController(mech(), [chi.GaussianErrorModel()])
+    c.set_data(df, output_observable_dict=ood, **kw)
+    check('set_data')
+    n = prior(c)
+    x = rng.uniform(0.5, 1.5, n)
+    v = values(c, x)
+    c.get_dosing_regimens()
+    c.get_predictive_model()
+    check('get_log_posterior, evaluation, get_dosing_regimens, get_predictive_model')
+    fx = {c.get_parameter_names()[0]: 1.2}
+    fx_before = dict(fx)
+    c.fix_parameters(fx)
+    prior(c)
+    values(c, x[1:])
+    check('fix_parameters, evaluation')
+    ctx.spec(tag, fx == fx_before, dict(inp, after='fix_parameters (its dictionary)'))
+    # the frame is used again: like a pristine copy
+    c2 = chi.ProblemModellingController(mech(), [chi.GaussianErrorModel()])
+    c3 = chi.ProblemModellingController(mech(), [chi.GaussianErrorModel()])
+    c2.set_data(df, output_observable_dict=ood, **kw)
+    c3.set_data(pristine.copy(deep=True), output_observable_dict=dict(ood_before), **kw)
+    prior(c2)
+    prior(c3)
+    v2, v3 = values(c2, x), values(c3, x)
+    ctx.spec(tag, same(np.array(v2), np.array(v3)) and same(np.array(v), np.array(v3)), dict(inp, after='frame used again'),
+             {'first_use': v, 'second_use': v2, 'pristine_copy': v3})
+    check('second set_data')
+    if not pop_stage:
+        return
+    # … and by a controller with a population model (covariates are read from the same frame)
+
+    def pop():
+        mid = chi.GaussianModel() if cov_obs is None else \
+            chi.CovariatePopulationModel(chi.GaussianModel(), chi.LinearCovariateModel(1, cov_names=['Age']))
+        return chi.ComposedPopulationModel([chi.PooledModel(), mid, chi.LogNormalModel()])
+    cd = None if cov_obs is None or (cov_obs == 'Age' and rng.random() < 0.5) else {'Age': cov_obs}
+    cd_before = None if cd is None else dict(cd)
+    vals = []
+    for frame in (df, pristine.copy(deep=True)):
+        cp = chi.ProblemModellingController(mech(), [chi.GaussianErrorModel()])
+        cp.set_population_model(pop())
+        cp.set_data(frame, output_observable_dict=ood, covariate_dict=cd, **kw)
+        prior(cp)
+        post = cp.get_log_posterior()
+        xp = np.linspace(0.6, 1.4, post.n_parameters())
+        with np.errstate(all='ignore'):
+            vals.append((float(post(xp)), snap(post.evaluateS1(xp))))
+        if frame is df:
+            check('set_population_model, set_data, evaluation')
+    ctx.spec(tag, cd == cd_before and same(vals[0], vals[1]), dict(inp, after='population model: frame used again',
+                                                                  covariate_dict=cd_before),
+             {'same_frame': vals[0], 'pristine_copy': vals[1]})
+
+
 def model_correspondence(ctx, chi, rng):
     """the vector a wrapped (recording) object sees in every evaluation of a sequence vs Purity.evalSeq"""
     inner = toy.ToyModel(1, int(rng.integers(2, 5)), 3)
@@ -624,7 +1108,7 @@ def parallel(ctx, chi, rng, n_points=4):
 
 def run(ctx):
     chi = core.import_chi()
-    n = 120 if ctx.tier == 'quick' else 3000
+    n = 240 if ctx.tier == 'quick' else 3000
     for i in range(n):
         rng = ctx.sub_rng(i)
         z = Zoo(chi, rng)
@@ -649,6 +1133,23 @@ def run(ctx):
             ctx.guard(controller_from_user_models, ctx, chi, ctx.sub_rng(3 * 10 ** 6 + i))
         if i % 20 == 5 and i < 20 * 40:
             ctx.guard(controller_request_order, ctx, chi, ctx.sub_rng(5 * 10 ** 6 + i))
+        if i % 2 == 1:
+            r6 = ctx.sub_rng(6 * 10 ** 6 + i)
+            rz = ReconfZoo(chi, r6)
+            rmakers = [rz.loglik, rz.predictive, rz.loglik, rz.reduced_error, rz.loglik, rz.reduced_pop, rz.loglik,
+                       rz.pop_predictive]
+            made6 = ctx.guard(rmakers[(i // 2) % len(rmakers)])
+            if made6 is not None:
+                ctx.guard(reconfigure_case, ctx, *made6, r6)
+        if i % 20 == 7 and i < 20 * 40:
+            r7 = ctx.sub_rng(7 * 10 ** 6 + i)
+            made7 = ctx.guard(ReconfZoo(chi, r7).pkpd_loglik)
+            if made7 is not None:
+                ctx.guard(reconfigure_case, ctx, *made7, r7, n_steps=9)
+        if i % 2 == 0:
+            ctx.guard(reduced_mech_reconfigure, ctx, chi, ctx.sub_rng(8 * 10 ** 6 + i))
+        if i % 3 == 2:
+            ctx.guard(controller_inputs, ctx, chi, ctx.sub_rng(9 * 10 ** 6 + i))
     ctx.guard(parallel, ctx, chi, ctx.sub_rng(10 ** 7))
     if ctx.tier == 'thorough':
         for j in range(4):
